@@ -85,8 +85,6 @@ structure State where
   hooks : List Hook
   /-- the process is gone (failed assertion / LOG_SYSFATAL) -/
   dead : Bool
-  /-- ghost: some channel was registered by an update that carried no interest (finding F21) -/
-  blind : Bool
   out : List Ev
 
 def fdOf (c : Nat) : Int := c
@@ -110,7 +108,7 @@ def pollUpdate (s : State) (c : Nat) : State :=
     if s.cmap (fdOf c) ≠ none then abort s "channels_.find(channel->fd()) == channels_.end()"
     else
       { s with
-        pollfds := s.pollfds ++ [(fdOf c, ch.events)]
+        pollfds := s.pollfds ++ [(if pollNewIgnores ch.events then pollNewIgnoreFd (fdOf c) else fdOf c, ch.events)]
         chans := fun x => if x = c then { ch with index := (s.pollfds.length : Int) } else s.chans x
         cmap := fun x => if x = fdOf c then some c else s.cmap x }
   else
@@ -190,6 +188,7 @@ def epollUpdate (s : State) (c : Nat) : State :=
   if epAddBranch ch.index then
     if epIsNew ch.index then
       if s.cmap (fdOf c) ≠ none then abort s "channels_.find(fd) == channels_.end()"
+      else if epNewSkips ch.events then setIndex (setCmap s (fdOf c) (some c)) c epIndexAfterNewSkip
       else ctl (setIndex (setCmap s (fdOf c) (some c)) c epIndexAfterAdd) epCtlAdd c
     else
       if s.cmap (fdOf c) ≠ some c then abort s "channels_[fd] == channel"
@@ -246,16 +245,10 @@ only when it is not registered (`~Channel` asserts it) and not from inside a cal
 def recreateOk (s : State) (c : Nat) : Prop := (s.chans c).added = false ∧ s.handling = false
 instance : Decidable (recreateOk s c) := by unfold recreateOk; infer_instance
 
-/-- F21: the first update of an unregistered channel carries no interest (e.g. `disableAll()` on a fresh
-channel): both back-ends then register the descriptor with an empty mask -/
-def blindUpdate (s : State) (c : Nat) (k : OpKind) : Bool :=
-  (s.chans c).added = false ∧ isNoneEvent (newEvents k (s.chans c).events)
-
 /-- `events_ <op>= k` and `addedToLoop_ = true` of the `enable*/disable*` members (before `update()`) -/
 def setInterest (s : State) (c : Nat) (k : OpKind) : State :=
   { s with
-    chans := fun x => if x = c then { s.chans c with events := newEvents k (s.chans c).events, added := true } else s.chans x
-    blind := s.blind || blindUpdate s c k }
+    chans := fun x => if x = c then { s.chans c with events := newEvents k (s.chans c).events, added := true } else s.chans x }
 
 def report (s : State) (c : Nat) (k : OpKind) : State :=
   if s.dead then s else emit s (.op c k (s.chans c).events (s.chans c).index)
@@ -382,7 +375,7 @@ def run (s : State) (ins : List In) : State := ins.foldl step s
 def empty (be : Backend) : State :=
   { be := be, chans := fun _ => {}, cmap := fun _ => none, pollfds := [], kernel := fun _ => none,
     evsize := kInitEventListSize, iteration := 0, active := [], handling := false, cur := none,
-    hooks := [], dead := false, blind := false, out := [] }
+    hooks := [], dead := false, out := [] }
 
 def timerChan : Nat := 0
 def wakeChan : Nat := 1
